@@ -35,6 +35,32 @@ def _same_terms(got, want):
     return len(got) == len(want) and all(_same_term(a, b) for a, b in zip(got, want))
 
 
+def _state_terms(rsys, init_concs):
+    """the per-substance values of a state handed to upper_conc_bounds, in the order of rsys.substances, or None when it is not a state of that
+    system. upper_conc_bounds documents `init_concs : dict or array_like`: a mapping is read BY SUBSTANCE KEY (as_per_substance_array:
+    [init_concs[k] for k in substances]) and must then name exactly the substances of the system (a missing key is an error there, a further
+    key would be a value that belongs to no substance); anything else is positional. Iterating a mapping would give its keys, not the state."""
+    from collections.abc import Mapping
+    if isinstance(init_concs, Mapping):
+        try:
+            keys = list(rsys.substances)
+            if len(init_concs) != len(keys) or any(k not in init_concs for k in keys):
+                return None
+            return [init_concs[k] for k in keys]
+        except Exception:
+            return None
+    try:
+        return list(init_concs)
+    except TypeError:
+        return None
+
+
+def _same_state(rsys, init_concs, want):
+    """init_concs (mapping by substance key or positional container) is the state `want` (terms in the order of rsys.substances)"""
+    got = _state_terms(rsys, init_concs)
+    return got is not None and _same_terms(got, want)
+
+
 def _default_bounds_request(rsys, self, kw):
     """the bound of the property is the ELEMENTAL UPPER bound of the system that was given: asked of a system with the given substances and
     compositions, with the least ratio over the elements (min_=max would give the greatest: not a bound) and skipping the charge only (the
@@ -79,7 +105,7 @@ def _euler(n):
         # and parameters (the same terms: a copy of the vector into another container is not a different state), never for anything else
         asked, evaluated = [r for r in seen if r[0] == "bounds_of"], [r for r in seen if r[0] == "rhs_at"]
         v.prove("bounds_and_rhs_are_those_of_the_given_state", len(asked) >= 1 and len(evaluated) >= 1 and len(asked) + len(evaluated) == len(seen)
-                and all(_same_terms(r[1], ys) for r in asked) and all(_same_term(r[1], t0) and _same_terms(r[2], ys) and _same_terms(r[3], ps) for r in evaluated))
+                and all(_same_state(rsys, r[1], ys) for r in asked) and all(_same_term(r[1], t0) and _same_terms(r[2], ys) and _same_terms(r[3], ps) for r in evaluated))
         v.prove("bounds_are_the_elemental_upper_bounds_of_the_given_system", len(asked) >= 1 and all(r[2] for r in asked))
         v.prove_nl("step_is_non_negative", h >= 0)
         v.prove_nl("step_at_most_one", h <= 1)
@@ -119,7 +145,7 @@ def _(v):
 
     def which(y):   # by the terms, not by the identity of the container (a copied vector is the same state)
         for c in (0, 1):
-            if _same_terms(y, ys[c]):
+            if y is not None and _same_terms(y, ys[c]):
                 return c
         other.append(y)
         return 0
@@ -127,7 +153,12 @@ def _(v):
     def bounds(v_, self, init_concs, **kw):
         if not _default_bounds_request(rsys, self, kw):
             other.append(kw)
-        return list(ubs[which(init_concs)])
+        # the state may be given by substance key or positionally (both documented): normalised to the order of rsys.substances first
+        state = _state_terms(rsys, init_concs)
+        if state is None:
+            other.append(init_concs)
+            return list(ubs[0])
+        return list(ubs[which(state)])
     v.contract(ReactionSystem.upper_conc_bounds, "upper_conc_bounds", None, bounds)
 
     class Sys(FakeSymbolicSys):
